@@ -4,27 +4,27 @@ SPEC = dict(
     coq_dir="C07",
     coq_targets=["C05/Proofs.vo", "C05/Sort.vo", "C05/Examples.vo", "C07/Proofs.vo", "C07/Equiv.vo", "C07/Examples.vo"],
     allowed_axioms=[],
-    level_text=("Unbounded Coq theorems about the C05 model of write-fonts' object store and packer: the ordered object map built by "
-                "Graph::from_obj_store is independent of the HashMap iteration order (any permutation), so is the outcome of the "
-                "removed_edges check that ends both sorts, and Graph::serialize produces identical bytes (or the identical panic) under "
-                "ANY injective renaming of object ids applied to the object map and the order — ids are names only. "
-                "Equivariance of the sorts / pack_objects / ObjectStore id assignment under strictly increasing id streams "
-                "(hence concurrent_determinism and history_independence) is NOT proved; it is checked per case: the executable model "
-                "is evaluated by vm_compute under three different id streams (different counter start and stride) and must reproduce the "
-                "real bytes each time. The property itself is checked on the implementation by a schedule experiment: generated object "
-                "DAGs (incl. the space-assignment/duplication path), real GPOS/GSUB/GDEF/name/cmap/HVAR/fvar tables, synthetic GPOS forcing "
-                "splitting and extension promotion, gvar and ItemVariationStore builders, FontBuilder::build and klippa::subset_font are "
-                "compiled repeatedly after random unrelated compilations, concurrently on 1..16 threads with randomised starts, and in "
-                "fresh child processes (different HashMap seeds); all output hashes must agree — partial for gvar/IVS/klippa (tested only)."),
-    level_note=("Trusted: Coq kernel; coq/C05/Model.v (its agreement with write-fonts is checked on every run, not proved); the harness. "
-                "Theorems cover hash-iteration independence and id-renaming invariance of the serializer; monotone-renaming equivariance of "
-                "sort_kahn/sort_shortest_distance/pack_objects and of ObjectStore id assignment is tested (3 id streams per case), not proved. "
-                "A data race cannot be exhibited by the model; the only shared mutable state of the packer is the atomic id counter."),
+    level_text=("Unbounded Coq theorems about the C05 model of write-fonts' object store and packer. Hash iteration: the ordered object map built by "
+                "Graph::from_obj_store and the removed_edges check of both sorts are independent of HashMap iteration order (any permutation). "
+                "Ids are names: Graph::serialize gives identical bytes under ANY injective renaming. Equivariance (round 2): for every strictly "
+                "monotone renaming rho of ids, ObjectStore/TableWriter id assignment (store_ids_order_isomorphic), update_parents, sort_kahn, "
+                "update_distances, assign_space_0, sort_shortest_distance, has_overflows, basic_sort, pack_objects and dump_table commute with rho; "
+                "hence any two strictly increasing id streams give the same bytes/failure (counter_independent), and for every counter start and every "
+                "interleaving of other threads' fetch_add draws the result equals the one with ids 0,1,2,... (concurrent_history_independent). "
+                "These theorems cover the modelled basic path (Kahn / shortest distance); the space-assignment / duplication path is modelled and "
+                "evaluated under three id streams per case but its equivariance is not proved. On the implementation the property is checked by a "
+                "schedule experiment: generated object DAGs (incl. duplication path), real GPOS/GSUB/GDEF/name/cmap/HVAR/fvar tables, synthetic GPOS "
+                "forcing splitting and promotion, gvar and ItemVariationStore builders, FontBuilder::build and klippa::subset_font compiled repeatedly "
+                "after unrelated compilations, on 1..16 threads with randomised starts, and in fresh child processes; all hashes must agree — partial "
+                "(tested only) for gvar/IVS/klippa and the advanced path."),
+    level_note=("Trusted: Coq kernel; coq/C05/Model.v (its agreement with write-fonts is checked on every run, not proved); the harness; the assumption "
+                "that an atomic fetch_add hands one thread a strictly increasing sequence. A data race cannot be exhibited by the model; the only "
+                "shared mutable state of the packer is the atomic id counter."),
     technique="Coq proof (Permutation, injective renaming) over the C05 Gallina model + vm_compute correspondence under several id streams + schedule/thread/process determinism experiment on the implementation",
     modelled=["write-fonts/src/graph.rs: ObjectStore::add (id draw), Graph::from_obj_store (HashMap -> BTreeMap), removed_edges checks of sort_kahn / sort_shortest_distance, Graph::serialize",
               "write-fonts/src/write.rs: TableWriter::add_table / write_offset (post-order id assignment, content dedup)"],
-    not_covered=["pack_equivariant / kahn_equivariant / shortest_equivariant / store_ids_order_isomorphic / concurrent_determinism / history_independence: stated in coq/C07/Props.v (comment) and notes, not proved; checked per case under three id streams",
-                 "id_map (HashMap) iteration in isolate_subgraph_hb, orphan set in remove_orphans, parent set in get_promotable_subtables: not modelled; covered by the child-process experiment only",
+    not_covered=["equivariance / hash-order independence of the space-assignment path (id_map HashMap iteration in isolate_subgraph_hb, fresh ids of duplicate_subgraph): modelled, evaluated under three id streams per case, not proved",
+                 "orphan set in remove_orphans, parent set in get_promotable_subtables (GPOS/GSUB only): not modelled; child-process experiment only",
                  "gvar shared tuples/points, VariationStoreBuilder region ordering, klippa FnvHashMaps: schedule experiment only"],
     assumptions=["an atomic fetch_add hands each thread a strictly increasing sequence of ids (the only fact about the shared counter the argument needs)"],
 )
